@@ -13,6 +13,10 @@ package main
 
 import (
 	"bytes"
+	"go/ast"
+	"go/parser"
+	"go/printer"
+	"go/token"
 	"encoding/json"
 	"flag"
 	"fmt"
@@ -1876,6 +1880,7 @@ const (
 	endRevert
 	endInvalid
 	endOog
+	endSuicide // SELFDESTRUCT (CALL and CREATE nodes only)
 )
 const (
 	kCall = iota
@@ -1883,15 +1888,19 @@ const (
 	kDelegate
 	kStatic
 	kCreate
+	kCreateFunded // CREATE2 with endowment 0 onto an address that already holds value (nonce 0, no code)
 )
 
 type shapeNode struct {
 	kind, end int
+	late      bool // kCreateFunded: the init code deploys code that self-destructs when the parent calls it afterwards
+	fund      int  // kCreateFunded: 0 funded in the previous block, 1 by a CALL with value just before, 2 as SELFDESTRUCT beneficiary just before
 	effects   []int // len(children)+1
 	children  []*shapeNode
 }
 
 type shapeBuilder struct {
+	salt   int
 	g      *gen
 	slot   int
 	val    int
@@ -1917,19 +1926,67 @@ func (sb *shapeBuilder) effect(e int) []Act {
 
 // build emits the code of node n (children first) and returns the action by which
 // the parent enters it.
-func (sb *shapeBuilder) build(n *shapeNode, depth int) Act {
-	var acts []Act
-	acts = append(acts, sb.effect(n.effects[0])...)
-	for i, ch := range n.children {
-		acts = append(acts, sb.build(ch, depth+1))
-		acts = append(acts, sb.effect(n.effects[i+1])...)
+func (sb *shapeBuilder) build(n *shapeNode, depth int, parentSelf Addr) []Act {
+	// bounded gas at every level: a failing frame burns what it was given, not the rest of the transaction
+	gasAt := func(oog bool) string {
+		if oog {
+			return []string{"200000", "200000", "200000", "100000", "50000", "30000"}[depth]
+		}
+		return []string{"1000000", "1000000", "1000000", "300000", "100000", "40000"}[depth]
+	}
+	// the address the node runs at
+	var self, holder Addr // the address the node runs at; the account holding its code
+	var salt string
+	switch n.kind {
+	case kCallCode, kDelegate:
+		self = parentSelf
+		holder = Addr{K: "b", N: sb.next}
+		sb.next++
+	case kCall, kStatic:
+		self = Addr{K: "b", N: sb.next}
+		holder = self
+		sb.next++
+	case kCreate:
+		self = Addr{K: "b", N: 999} // unknown statically (depends on the nonce); only used as a CREATE2 sender below it
+	case kCreateFunded:
+		sb.salt++
+		salt = fmt.Sprintf("%d", sb.salt)
+	}
+	build := func(self Addr) []Act {
+		var acts []Act
+		acts = append(acts, sb.effect(n.effects[0])...)
+		for i, ch := range n.children {
+			kid := ch
+			if kid.kind == kCreateFunded && self.K == "b" && (self.N == 998 || self.N == 999) { // sender not known statically
+				kid = &shapeNode{kind: kCreate, end: ch.end, effects: ch.effects, children: ch.children}
+			}
+			acts = append(acts, sb.build(kid, depth+1, self)...)
+			acts = append(acts, sb.effect(n.effects[i+1])...)
+		}
+		return acts
 	}
 	end := n.end
-	if n.kind == kCreate && end == endOog {
+	isCreate := n.kind == kCreate || n.kind == kCreateFunded
+	if isCreate && end == endOog {
 		end = endInvalid // CREATE hands over all gas: do not burn it in a loop
 	}
-	if n.kind == kCreate && depth <= 2 && end == endInvalid {
+	if isCreate && depth <= 2 && end == endInvalid {
 		end = endRevert // ... and directly under the root a failing init code would starve the other shapes
+	}
+	if end == endSuicide && !isCreate && n.kind != kCall {
+		end = endOk
+	}
+	var acts []Act
+	var rt int
+	if n.kind == kCreateFunded {
+		// the init code is compiled before its address is known: CREATE2 address = f(sender, salt, init code)
+		acts = build(Addr{K: "b", N: 998})
+	} else {
+		acts = build(self)
+	}
+	ben := func() *Addr {
+		b := []Addr{sb.funded, parentSelf, sb.funded}[sb.g.r.Intn(3)]
+		return &b
 	}
 	switch end {
 	case endRevert:
@@ -1938,20 +1995,44 @@ func (sb *shapeBuilder) build(n *shapeNode, depth int) Act {
 		acts = append(acts, Act{Op: "invalid", Flavor: sb.g.r.Intn(3)})
 	case endOog:
 		acts = append(acts, Act{Op: "invalid", Flavor: 3})
+	case endSuicide:
+		acts = append(acts, Act{Op: "selfdestruct", Ben: ben()})
+	}
+	if n.kind == kCreateFunded && n.late {
+		rt = sb.g.addCode([]Act{{Op: "selfdestruct", Ben: ben()}}, 0)
+		if end == endOk || end == endSuicide {
+			if end == endSuicide {
+				acts = acts[:len(acts)-1]
+			}
+			acts = append(acts, Act{Op: "return", C: rt})
+		}
 	}
 	id := sb.g.addCode(acts, 0)
-	// bounded gas at every level: a failing frame burns what it was given, not the rest of the transaction
-	gas := []string{"1000000", "1000000", "1000000", "300000", "100000", "40000"}[depth]
-	if end == endOog {
-		gas = []string{"200000", "200000", "200000", "100000", "50000", "30000"}[depth]
+	switch n.kind {
+	case kCreate:
+		return []Act{{Op: "create", Two: false, Salt: "0", V: "2", Init: id}}
+	case kCreateFunded:
+		x := Addr{K: "c2", S: &parentSelf, Salt: salt, Init: id}
+		var out []Act
+		switch n.fund {
+		case 0:
+			sb.g.c.Accts = append(sb.g.c.Accts, Acct{A: x, Nonce: 0, Bal: "9", Code: 0})
+		case 1:
+			out = append(out, Act{Op: "call", Kind: 0, Gas: "0", To: &x, V: "1"})
+		case 2:
+			h := Addr{K: "b", N: sb.next}
+			sb.next++
+			sb.g.c.Accts = append(sb.g.c.Accts, Acct{A: h, Nonce: 1, Bal: "3", Code: sb.g.addCode([]Act{{Op: "selfdestruct", Ben: &x}}, 0)})
+			out = append(out, Act{Op: "call", Kind: 0, Gas: "100000", To: &h, V: "0"})
+		}
+		out = append(out, Act{Op: "create", Two: true, Salt: salt, V: "0", Init: id})
+		if n.late {
+			out = append(out, Act{Op: "call", Kind: 0, Gas: gasAt(false), To: &x, V: "0"})
+		}
+		return out
 	}
-	if n.kind == kCreate {
-		return Act{Op: "create", Two: false, Salt: "0", V: "2", Init: id}
-	}
-	a := Addr{K: "b", N: sb.next}
-	sb.next++
-	sb.g.c.Accts = append(sb.g.c.Accts, Acct{A: a, Nonce: 1, Bal: "10", Code: id})
-	return Act{Op: "call", Kind: []int{0, 1, 2, 3}[n.kind], Gas: gas, To: &a, V: "0"}
+	sb.g.c.Accts = append(sb.g.c.Accts, Acct{A: holder, Nonce: 1, Bal: "10", Code: id})
+	return []Act{{Op: "call", Kind: []int{0, 1, 2, 3}[n.kind], Gas: gasAt(end == endOog), To: &holder, V: "0"}}
 }
 
 func pickW(r *vf.Rng, w []int) int {
@@ -1971,7 +2052,15 @@ func pickW(r *vf.Rng, w []int) int {
 
 func randomShape(r *vf.Rng, depth int) *shapeNode {
 	effW := []int{35, 35, 8, 11, 11}
-	n := &shapeNode{kind: pickW(r, []int{20, 25, 30, 10, 15}), end: pickW(r, []int{35, 30, 20, 15})}
+	n := &shapeNode{kind: pickW(r, []int{18, 22, 26, 8, 10, 16}), end: pickW(r, []int{35, 30, 20, 15, 6})}
+	if n.kind == kCreateFunded {
+		// mostly: the created contract self-destructs (in the init code, or later when called) and nothing sends it value
+		n.fund = r.Intn(3)
+		n.late = r.Chance(30)
+		n.end = pickW(r, []int{15, 10, 5, 0, 70})
+		n.effects = append(n.effects, pickW(r, []int{50, 20, 10, 15, 5}))
+		return n
+	}
 	first := effW
 	if n.kind == kCallCode || n.kind == kDelegate {
 		// frames sharing the caller's storage: often nothing journalled before the first child,
@@ -2024,7 +2113,7 @@ func shapeCase(r *vf.Rng, first int, count int) *Case {
 	var stor [][2]string
 	nextAddr := uint64(30)
 	for j := 0; j < count; j++ {
-		sb := &shapeBuilder{g: g, slot: j, val: 10 * (j + 1), next: nextAddr, funded: funded}
+		sb := &shapeBuilder{g: g, slot: j, val: 10 * (j + 1), next: nextAddr, funded: funded, salt: 100 * j}
 		var e0 int
 		var p *shapeNode
 		if first >= 0 {
@@ -2037,11 +2126,14 @@ func shapeCase(r *vf.Rng, first int, count int) *Case {
 			}
 		}
 		acts = append(acts, sb.effect(e0)...)
-		acts = append(acts, sb.build(p, 2))
+		acts = append(acts, sb.build(p, 2, root)...)
 		if first < 0 && r.Chance(30) {
 			acts = append(acts, sb.effect(pickW(r, []int{0, 60, 20, 10, 10}))...)
 		}
 		nextAddr = sb.next
+	}
+	if first < 0 && r.Chance(12) { // the enclosing failure at the top level
+		acts = append(acts, Act{Op: []string{"revert", "invalid"}[r.Intn(2)]})
 	}
 	c.Accts = append(c.Accts, Acct{A: root, Nonce: 1, Bal: "100", Code: g.addCode(acts, 0), Stor: stor})
 	c.To = root
@@ -2524,6 +2616,142 @@ func probeResurrect() bool {
 	return db.GetBalance(x).Sign() != 0
 }
 
+// ---- translator: inventory of in-place big.Int writes on stored fields ------------------
+//
+// core/state shares *big.Int values between objects (CreateAccount hands the balance of
+// the replaced object to the new one; the journal keeps replaced objects and previous
+// values) on the assumption that a stored big.Int is only ever REPLACED, never modified
+// in place.  This lists every call of a mutating big.Int method whose receiver is a
+// struct field of type *big.Int (or an accessor named like one) in the non-test code of
+// core/state and core/vm.  Bridge.v pins the list.
+func aliasingCmd(out string) {
+	repo := os.Getenv("VERIF_REPO")
+	if repo == "" {
+		repo = "/repo"
+	}
+	mut := map[string]bool{}
+	for _, m := range strings.Fields("Set SetUint64 SetInt64 SetBytes SetString SetBit SetBits Add Sub Mul Div Mod Quo Rem Neg Abs Lsh Rsh Exp And Or Xor Not AndNot DivMod QuoRem ModInverse ModSqrt Sqrt GCD Rand Binomial MulRange") {
+		mut[m] = true
+	}
+	fset := token.NewFileSet()
+	var files []*ast.File
+	var names []string
+	for _, dir := range []string{"core/state", "core/vm"} {
+		pkgs, err := parser.ParseDir(fset, filepath.Join(repo, dir), func(fi os.FileInfo) bool { return !strings.HasSuffix(fi.Name(), "_test.go") && !strings.HasPrefix(fi.Name(), "zz_verif_") }, 0)
+		if err != nil {
+			fmt.Fprintln(os.Stderr, "c16 aliasing: cannot parse", dir, err)
+			os.Exit(3)
+		}
+		for _, p := range pkgs {
+			var fns []string
+			for fn := range p.Files {
+				fns = append(fns, fn)
+			}
+			sort.Strings(fns)
+			for _, fn := range fns {
+				files = append(files, p.Files[fn])
+				rel, _ := filepath.Rel(repo, fn)
+				names = append(names, rel)
+			}
+		}
+	}
+	isBig := func(e ast.Expr) bool {
+		st, ok := e.(*ast.StarExpr)
+		if !ok {
+			return false
+		}
+		se, ok := st.X.(*ast.SelectorExpr)
+		if !ok {
+			return false
+		}
+		id, ok := se.X.(*ast.Ident)
+		return ok && id.Name == "big" && se.Sel.Name == "Int"
+	}
+	fields := map[string]bool{}
+	for _, f := range files {
+		ast.Inspect(f, func(n ast.Node) bool {
+			if st, ok := n.(*ast.StructType); ok {
+				for _, fl := range st.Fields.List {
+					if isBig(fl.Type) {
+						for _, nm := range fl.Names {
+							fields[nm.Name] = true
+						}
+					}
+				}
+			}
+			return true
+		})
+	}
+	text := func(e ast.Expr) string {
+		var b bytes.Buffer
+		printer.Fprint(&b, fset, e)
+		return strings.Join(strings.Fields(b.String()), " ")
+	}
+	type entry struct{ file, fn, expr string }
+	var out2 []entry
+	for i, f := range files {
+		for _, d := range f.Decls {
+			fd, ok := d.(*ast.FuncDecl)
+			if !ok || fd.Body == nil {
+				continue
+			}
+			fname := fd.Name.Name
+			if fd.Recv != nil && len(fd.Recv.List) > 0 {
+				fname = text(fd.Recv.List[0].Type) + "." + fname
+			}
+			ast.Inspect(fd.Body, func(n ast.Node) bool {
+				ce, ok := n.(*ast.CallExpr)
+				if !ok {
+					return true
+				}
+				se, ok := ce.Fun.(*ast.SelectorExpr)
+				if !ok || !mut[se.Sel.Name] {
+					return true
+				}
+				stored := false
+				switch r := se.X.(type) {
+				case *ast.SelectorExpr:
+					stored = fields[r.Sel.Name]
+				case *ast.CallExpr:
+					if rs, ok := r.Fun.(*ast.SelectorExpr); ok && len(r.Args) == 0 {
+						stored = fields[rs.Sel.Name] || rs.Sel.Name == "Value"
+					}
+				}
+				if stored {
+					out2 = append(out2, entry{names[i], fname, text(ce.Fun)})
+				}
+				return true
+			})
+		}
+	}
+	sort.Slice(out2, func(i, j int) bool {
+		if out2[i].file != out2[j].file {
+			return out2[i].file < out2[j].file
+		}
+		if out2[i].fn != out2[j].fn {
+			return out2[i].fn < out2[j].fn
+		}
+		return out2[i].expr < out2[j].expr
+	})
+	var fs []string
+	for k := range fields {
+		fs = append(fs, "\""+k+"\"")
+	}
+	sort.Strings(fs)
+	var sb strings.Builder
+	sb.WriteString("(* GENERATED by harness/cmd/c16 (aliasing) from the source text of core/state and core/vm of the working tree. Do not edit. *)\nFrom Coq Require Import String List.\nImport ListNotations.\nLocal Open Scope string_scope.\n")
+	sb.WriteString("(* struct fields of type *big.Int *)\nDefinition bigint_fields : list string := [" + strings.Join(fs, "; ") + "].\n")
+	sb.WriteString("(* (file, function, call): a mutating big.Int method called on such a field or on an accessor of one *)\nDefinition inplace_writes : list (string * string * string) := [\n")
+	for i, e := range out2 {
+		if i > 0 {
+			sb.WriteString(";\n")
+		}
+		sb.WriteString(fmt.Sprintf(" (%q, %q, %q)", e.file, e.fn, e.expr))
+	}
+	sb.WriteString("].\n")
+	vf.WriteIfChanged(out, sb.String())
+}
+
 // ---- replay ----------------------------------------------------------------------------
 
 func replayCmd(file string) {
@@ -2587,6 +2815,8 @@ func main() {
 		genCmd(*seed, *n, *out, *corpus, *tier)
 	case "table":
 		tableCmd(*out)
+	case "aliasing":
+		aliasingCmd(*out)
 	case "replay":
 		replayCmd(*file)
 	default:
